@@ -146,9 +146,13 @@ def rule_header(ctx):
     except ValueError:
         raise AnalysisError("C11.HEADER: `em_bytes = enumerate(dec_bytes)` not found")
     win = seq[i + 1:i + 5]
-    ok = len(win) == 4 and win[0].endswith("= next(em_bytes)") and win[2].endswith("= next(em_bytes)")
-    v1 = win[0].split("=")[0].split(",")[-1].strip(" ()") if ok else "?"
-    v2 = win[2].split("=")[0].split(",")[-1].strip(" ()") if ok else "?"
+    # `_, v = next(em_bytes)` or `v = next(em_bytes)[1]`: the next byte, under whatever name
+    pat = re.compile(r"^(?:\(?\w+, (\w+)\)? = next\(em_bytes\)|(\w+) = next\(em_bytes\)\[1\])$")
+    m1 = pat.match(win[0]) if len(win) == 4 else None
+    m2 = pat.match(win[2]) if len(win) == 4 else None
+    ok = bool(m1 and m2)
+    v1 = (m1.group(1) or m1.group(2)) if m1 else "?"
+    v2 = (m2.group(1) or m2.group(2)) if m2 else "?"
     ok = ok and win[1] == "error_detected |= ct_isnonzero_u32(%s)" % v1 and \
         win[3] == "error_detected |= ct_neq_u32(%s, 2)" % v2
     ctx.check(R, ok, fi.qname, "first byte checked == 0x00 and second byte == 0x02, each on its own",
